@@ -55,6 +55,37 @@ FIELD_CHOICES = [
 ]
 
 
+# generic items whose value is written at TYPE level: `default()` is that expression for every instantiation, also for
+# type arguments that are not Default themselves (no field is default-constructed)
+GENERIC_TYPE_LEVEL = [
+    ('#[default(Self::make())] pub struct X<T>(pub Wr<T>, pub u8);',
+     'impl<T> X<T> { pub fn make() -> Self { X(Wr(Vec::new()), 7) } }',
+     'let x: X<ND> = Default::default(); x.1 == 7 && x.0 .0.is_empty()'),
+    ('#[default(X { a: Wr(Vec::new()), n: [0; N] })] pub struct X<T, const N: usize> { pub a: Wr<T>, pub n: [u8; N] }', '',
+     'let x: X<ND, 3> = Default::default(); x.n == [0u8; 3] && x.a.0.is_empty()'),
+    ('#[default(Self::B(3))] pub enum X<T> { A(Wr<T>), B(u8) }', '',
+     'let x: X<ND> = Default::default(); matches!(x, X::B(3))'),
+    ('pub struct X<T>(#[default(Wr(Vec::new()))] pub Wr<T>, #[default(7)] pub u8);', '',
+     'let x: X<ND> = Default::default(); x.1 == 7 && x.0 .0.is_empty()'),
+]
+GENERIC_PRELUDE = '''pub struct ND;
+pub struct Wr<T>(pub Vec<T>);
+impl<T: Default> Default for Wr<T> { fn default() -> Self { Wr(vec![T::default()]) } }
+'''
+
+
+def generic_modules():
+    out = []
+    for k, (decl, extra, test) in enumerate(GENERIC_TYPE_LEVEL):
+        for mode in ('attr', 'derive'):
+            cid = 10 ** 6 + 2 * k + (mode == 'derive')
+            head = '#[::derive_ex::derive_ex(Default)]' if mode == 'attr' else '#[derive(::derive_ex::Ex)] #[derive_ex(Default)]'
+            src = [GENERIC_PRELUDE, head + ' ' + decl, extra,
+                   'pub fn run() { let ok = { %s }; println!("%d\\tdef\\t{}\\ttrue", ok); }' % (test, cid)]
+            out.append((cid, '\n'.join(src), head.replace('::derive_ex::', '') + ' ' + decl))
+    return out
+
+
 class C11(Prop):
     pid = 'C11'
     tag = 'body of the Default impl and its rejection messages'
@@ -195,6 +226,14 @@ class C11(Prop):
             mods.append(l2.Module(r.cid, '\n'.join(src), r))
         nb = 8
         batches = [('c11_%d' % k, mods[k::nb]) for k in range(nb)]
+        class _Lit:
+            def __init__(self, text):
+                self.text, self.meta = text, dict(nontrivial=True)
+            def input_text(self):
+                return self.text
+        lit = [l2.Module(cid, src, _Lit(text)) for cid, src, text in generic_modules()]
+        mods.extend(lit)
+        batches.append(('c11_lit', lit))
         exes = l2.compile_parallel(batches, prelude=PRELUDE)
         l2.compile_parallel([('c11rej', rejs)], prelude=PRELUDE, check_only=True)
         obs = {}
